@@ -116,3 +116,35 @@ Example ex_same_salt_ok :
   = Some ([(1%nat, 1%nat, 52, RetVal KObj 8); (0%nat, 1%nat, 60, RetVal KObj 7)], [777; 778; 777; 777], [56; 48; 44; 40],
           [(60, 777); (56, 778); (52, 777); (48, 777); (44, 0); (40, 0)], []).
 Proof. vm_compute. reflexivity. Qed.
+
+(* seq_no is a 32-bit pattern and "content-related" is its LOW BIT.  The model tests it with Z.odd, which is the
+   low bit of the pattern whether the 32 bits are read as Go's int32 (negative from 2^31 on) or as an unsigned
+   number - never a signed remainder (Go's -1 % 2 is -1).  Five updates with seq_no 0x80000001, 0xffffffff,
+   0x7fffffff (odd), 0x80000000, 0xfffffffe (even), then the same five as items of a container whose own seq_no is
+   even: the six odd deliveries are acknowledged (msg ids 3 7 11, 43 47 51), the four even ones are not. *)
+Example seq_parity_is_the_low_bit :
+  map Z.odd [-2147483647; -1; 2147483647; -2147483648; -2; 2147483649; 4294967295; 2147483648; 4294967294]
+  = [true; true; true; false; false; true; true; false; false].
+Proof. reflexivity. Qed.
+
+Definition cfg_handler := {| cf_warn := WNil; cf_handler := true; cf_keyed := true |}.
+Definition ex_wide_seq : list label2 := [
+  L1 (LSrv (3, -2147483647, BUpdate)); r 0; r 0; r 10; r 0; r 0; r 0;
+  L1 (LSrv (7, -1, BUpdate)); r 0; r 0; r 11; r 0; r 0; r 0;
+  L1 (LSrv (11, 2147483647, BUpdate)); r 0; r 0; r 12; r 0; r 0; r 0;
+  L1 (LSrv (15, -2147483648, BUpdate)); r 0; r 0;
+  L1 (LSrv (19, -2, BUpdate)); r 0; r 0;
+  L1 (LSrv (63, -2, BContainer [(43, -2147483647, BUpdate); (47, -1, BUpdate); (51, 2147483647, BUpdate);
+                                (55, -2147483648, BUpdate); (59, -2, BUpdate)]));
+  r 0; r 0;
+  r 0; r 13; r 0; r 0; r 0;
+  r 0; r 14; r 0; r 0; r 0;
+  r 0; r 15; r 0; r 0; r 0;
+  r 0; r 0].
+
+Example ex_wide_seq_ok :
+  option_map (fun s => (rx (base s), handled s, unacked (elog (base s)),
+                        map (fun w => w_kind w) (wire_out (elog (base s)))))
+             (run2 (init2 cfg_handler) ex_wide_seq)
+  = Some (RRead, 10%nat, [], [WAck 51; WAck 47; WAck 43; WAck 11; WAck 7; WAck 3]).
+Proof. vm_compute. reflexivity. Qed.
